@@ -46,10 +46,10 @@ var l0Table = []l0Entry{
 		Spec:    func(v map[string]bool) bool { return !v["one"] && (!v["contig"] || v["lazy"] || v["masked"]) },
 		Meaning: "false for one element, otherwise true iff non-contiguous, lazily transposed or masked"},
 	{Func: "tensor.(*Dense).IsMaterializable", Equiv: true,
-		Atoms:   map[string]string{"($r.viewOf == 0)": "!view", "(0 == $r.viewOf)": "!view", "$r.old.IsZero()": "!lazy", "$r.IsView()": "view"},
-		Vars:    []string{"view", "lazy"},
-		Spec:    func(v map[string]bool) bool { return v["view"] || v["lazy"] },
-		Meaning: "view or pending lazy transpose"},
+		Atoms:   map[string]string{"($r.viewOf == 0)": "!view", "(0 == $r.viewOf)": "!view", "$r.old.IsZero()": "!lazy", "$r.IsView()": "view", "$r.o.IsNotContiguous()": "nc", "$r.o.IsContiguous()": "!nc"},
+		Vars:    []string{"view", "lazy", "nc"},
+		Spec:    func(v map[string]bool) bool { return v["view"] || v["lazy"] || v["nc"] },
+		Meaning: "view, pending lazy transpose, or gaps between the elements (the clone of a non-contiguous view owns its memory and keeps the view's strides: finding 78)"},
 	{Func: "tensor.(*Dense).IsView", Equiv: true,
 		Atoms:   map[string]string{"($r.viewOf == 0)": "!view", "(0 == $r.viewOf)": "!view"},
 		Vars:    []string{"view"},
